@@ -192,6 +192,19 @@ func (e *UWrapFmtOld) Format(s fmt.State, verb rune) {
 	}
 }
 
+// UWrapHinter: unregistered wrapper contributing a hint and a detail
+// through the ErrorHinter / ErrorDetailer interfaces (not in the
+// default kind lists: its annotations cannot survive transfer).
+type UWrapHinter struct {
+	Hint, Detail string
+	Cause        error
+}
+
+func (e *UWrapHinter) Error() string       { return e.Cause.Error() }
+func (e *UWrapHinter) Unwrap() error       { return e.Cause }
+func (e *UWrapHinter) ErrorHint() string   { return e.Hint }
+func (e *UWrapHinter) ErrorDetail() string { return e.Detail }
+
 // UMulti: unregistered multi-cause type (message = own + all causes).
 type UMulti struct {
 	Msg    string
